@@ -295,7 +295,7 @@ def edit_cases(draw):
     ops = draw(histories())
     n = len(ops)
     marks = draw(st.lists(st.tuples(st.integers(1, max(1, n - 1)), st.sampled_from(ANALYSES),
-                                    st.integers(0, 30)).map(list), min_size=1, max_size=8))
+                                    st.integers(0, 30)).map(list), min_size=1, max_size=14))
     return {"ops": ops, "marks": marks}
 
 
